@@ -13,7 +13,9 @@ use std::sync::atomic::Ordering::Relaxed;
 use vrt::Src;
 
 pub fn fake_format(_a: std::fmt::Arguments<'_>) -> String {
-    String::new()
+    // not `String::new()`: Kani 0.68 gives that constant a nondeterministic capacity when the value flows
+    // through a stub, which makes its drop look like a bogus `dealloc` (seen in a CBMC trace, see DESIGN.md)
+    String::with_capacity(1)
 }
 
 // --------------------------------------------------------------------------------------------
